@@ -85,6 +85,12 @@ inline void pin_lib_rng(uint64_t x) {
   datasketches::random_utils::rand.seed(x);
   datasketches::random_utils::random_bit.seed(static_cast<uint32_t>(x));
 }
+// bitwise equality of two vectors of floating values (NaN-safe, distinguishes -0.0)
+template<typename T> bool same_bits(const std::vector<T>& a, const std::vector<T>& b) {
+  if (a.size() != b.size()) return false;
+  for (size_t i = 0; i < a.size(); ++i) if (memcmp(&a[i], &b[i], sizeof(T)) != 0) return false;
+  return true;
+}
 template<typename V> std::string to_str(const V& bytes) { return std::string(reinterpret_cast<const char*>(bytes.data()), bytes.size()); }
 
 inline uint64_t seed_for(int variant) { return (variant % 3 == 2) ? 0x5eed0000ULL + uint64_t(variant) * 7919 : 9001ULL; }
